@@ -757,6 +757,47 @@ func genC06(g *Gen, tier string, emit func(op string, args ...string)) {
 	for k := 0; k < n/10; k++ {
 		emit("dups", itoa(g.Pick(2, 3, 5, 8, 16)))
 	}
+	// directed: two or three requests from DIFFERENT peers (and from one peer with different identifiers)
+	// in flight on one Serve call; the handlers reply in every order — each reply must go to its own
+	// request's source
+	{
+		mk := func(peer int, id byte) string {
+			p := &radius.Packet{Code: 1, Identifier: id, Secret: []byte("x")}
+			copy(p.Authenticator[:], g.RandBytes(16))
+			w, _ := p.Encode()
+			return "D0:" + itoa(peer) + ":" + hx(w)
+		}
+		sec := "0:73,1:7365637265743a31,2:-,3:error"
+		for _, peers := range [][]int{{0, 1}, {1, 0}, {0, 1, 0}, {0, 0}} {
+			var pre []string
+			for t, pr := range peers {
+				pre = append(pre, mk(pr, byte(10+t)), "d"+itoa(t))
+			}
+			var order func(done []int)
+			order = func(done []int) {
+				if len(done) == len(peers) {
+					cmds := append([]string{"S0", "s0"}, pre...)
+					for _, t := range done {
+						cmds = append(cmds, "F"+itoa(t)+":"+itoa(g.Pick(2, 3, 11)))
+					}
+					emit("scenario", "0", sec, strings.Join(append(cmds, "Z"), ","))
+					return
+				}
+				for t := range peers {
+					used := false
+					for _, d := range done {
+						if d == t {
+							used = true
+						}
+					}
+					if !used {
+						order(append(append([]int{}, done...), t))
+					}
+				}
+			}
+			order(nil)
+		}
+	}
 	for k := 0; k < n; k++ {
 		skip := "0"
 		if g.Chance(1, 5) {
